@@ -1,3 +1,4 @@
+mod dict;
 mod r#gen;
 mod props;
 mod run;
